@@ -284,9 +284,9 @@ func init() {
 			"Non-trivial: >=1 disposable instance was created; distinct = spec hash + fault position.",
 		Shards:     func(tier string) int { return 16 },
 		Run:        runC10,
-		NeedEvents: []string{"close_events", "disposables_created", "fault_positions"},
+		NeedEvents: []string{"close_events", "disposables_created", "fault_positions", "overlap_with_close_executions"},
 		Assumptions: []string{"lenient reading for failed Build / failed scope creation: closed by the end of the history (DESIGN.md §3 C10)",
-			"instance values are not created by the container and are excluded; the overlap of Close with an in-flight construction is covered by C13/C09"},
+			"instance values are not created by the container and are excluded", "the overlap of Close with an in-flight construction is driven with the sandwich schedule of the C13 engine (op parked in a constructor, closer parked inside a disposable Close, op released first)"},
 	})
 	eng.Register(&eng.Property{
 		ID: "C11", Level: "exploration",
@@ -294,8 +294,8 @@ func init() {
 			"all instances of descendant scopes before any instance of the ancestor; every scope instance before any singleton. Non-trivial: >=2 ordered pairs checked; distinct = spec + history hash.",
 		Shards:      func(tier string) int { return 16 },
 		Run:         runC11,
-		NeedEvents:  []string{"close_events", "ordered_pairs_checked"},
-		Assumptions: []string{"dependents-before-dependencies is applied to same-owner pairs (a root-scope transient built for a singleton is closed before it, as the statement's last sentence demands)", "outputs of one constructor invocation are a tie"},
+		NeedEvents:  []string{"close_events", "ordered_pairs_checked", "close_vs_close_overlaps"},
+		Assumptions: []string{"beyond the sequential quantifier, deterministic close-vs-close overlaps are driven too (a scope still being closed by another goroutine while its parent / the provider is closed) and the same order rules applied", "dependents-before-dependencies is applied to same-owner pairs (a root-scope transient built for a singleton is closed before it, as the statement's last sentence demands)", "outputs of one constructor invocation are a tie"},
 	})
 }
 
@@ -303,8 +303,16 @@ func disposableBias(rng *rand.Rand) GenOpts {
 	return GenOpts{Want: ClsOK, Specials: rng.Intn(2) == 0, Values: rng.Intn(6) == 0, MultiAlias: rng.Intn(3) == 0, OutGroup: rng.Intn(4) == 0, MultiOpt: rng.Intn(4) == 0, Removes: rng.Intn(3) == 0}
 }
 
+// C10Overlap is installed by package conc (constructions overlapping a concurrent Close).
+var C10Overlap func(c *eng.Ctx, next func() (int, bool))
+
 func runC10(c *eng.Ctx) {
 	cr := &caseRunner{c: c, prop: "C10"}
+	defer func() {
+		if C10Overlap != nil {
+			C10Overlap(c, cr.next)
+		}
+	}()
 	nSpecs := c.Pick(300, 6000)
 	directed := []*Spec{
 		// D5: initializer chain where a later initializer fails
@@ -384,8 +392,22 @@ func runC10(c *eng.Ctx) {
 	}
 }
 
+// C11Concurrent is installed by package conc: ordering scenarios in which two Close calls
+// overlap (a scope still being closed by another goroutine when its parent / the provider is
+// closed). The order rules of C11 are about what is closed before what, so they are checked
+// on these histories too.
+var C11Concurrent func(c *eng.Ctx, next func() (int, bool))
+
+// MonC11Exported lets package conc apply the C11 order oracle.
+func MonC11Exported(r *Run, o *Obs) ([]Finding, int) { return MonC11(r, o) }
+
 func runC11(c *eng.Ctx) {
 	cr := &caseRunner{c: c, prop: "C11"}
+	defer func() {
+		if C11Concurrent != nil {
+			C11Concurrent(c, cr.next)
+		}
+	}()
 	n := c.Pick(1000, 30000)
 	directed := []*Spec{
 		{Regs: []Reg{mkReg("Leaf_K0_a", godi.Singleton), mkReg("PosA_1_1", godi.Singleton), mkReg("PosA_2_3", godi.Scoped), mkReg("PosB_3_7", godi.Transient), mkReg("Leaf_S0_a", godi.Scoped), mkReg("Leaf_S1_a", godi.Transient)}},
